@@ -200,7 +200,10 @@ class Capture:
                 reads={k: set(v) for k, v in self_.reads.items()},
                 includes={k: set(v) for k, v in self_.includes.items()},
                 lookback={k: set(v) for k, v in self_.lookback.items()},
-                nts=list(self_.nonterminal_transitions))
+                nts=list(self_.nonterminal_transitions),
+                # the orders digraph() will see: X as listed, R[x] in the iteration order of the set objects themselves
+                order_reads={k: list(v) for k, v in self_.reads.items()},
+                order_includes={k: list(v) for k, v in self_.includes.items()})
             return cap.orig_la(self_)
 
         def from_ParseTable(cls, parse_table):
@@ -291,6 +294,9 @@ def dump_analysis(o):
     d['reads'] = sorted((ntk(k), sorted(ntk(x) for x in v)) for k, v in snap['reads'].items())
     d['includes'] = sorted((ntk(k), sorted(ntk(x) for x in v)) for k, v in snap['includes'].items() if v)
     d['lookback'] = sorted((ntk(k), sorted((K(s), o.rule_idx[r]) for s, r in v)) for k, v in snap['lookback'].items())
+    d['order_nts'] = [ntk(nt) for nt in snap['nts']]
+    d['order_reads'] = [[ntk(y) for y in snap['order_reads'].get(nt, [])] for nt in snap['nts']]
+    d['order_includes'] = [[ntk(y) for y in snap['order_includes'].get(nt, [])] for nt in snap['nts']]
     d['error'] = o.error is not None
     return d
 
@@ -968,7 +974,7 @@ def correspond(ctx):
             lcases.append('(%s,%d,%d)' % (c_rules(d), d['roots'][0], 400))
             lmeta.append(dict(grammar=text, starts=g['starts']))
             ctx.count('coq-lr1-merge', key=text, nontrivial=(nstates >= 4 and proper))
-        acases.append(c_acase(ac))
+        acases.append(c_acase_coded(ac) if cyc else c_acase(ac))
         ameta.append(dict(grammar=text, starts=g['starts'], cyc=cyc, viol=bool(viol), error=d['error']))
         # --- model vs code: the driver, and membership ---
         if tab is None:
@@ -1030,28 +1036,35 @@ def correspond(ctx):
                           'LALR(1) grammar: expected %s, got %s' % (s_ in yes, got), key='F13:includes-kernel-item')
 
     # --- Coq: model of the analysis vs lark ---
-    bad, errs = ctx.coq_bad_indices('c02a', IMPORTS, 'check_acase', acases, chunk=max(8, len(acases) // 6 + 1))
-    for e in errs:
-        ctx.violation('correspondence:coq-eval', {'error': e[-600:], 'no_longer_checks': 'coq evaluation of analysis cases'},
-                      False, e[-300:])
-    ndiag = 0
-    for i in bad:
-        m = ameta[i]
-        stages = None
-        if ndiag < 3 or m['cyc']:        # one coqc per diagnosis: keep the number small
-            ndiag += 1
-            stages, _ = ctx.coq_eval('c02a_diag_%d' % i, IMPORTS, 'diag_acase %s' % acases[i])
-        if m['cyc']:
-            # known: lark's digraph aliases sets inside a reads-cycle (see DESIGN, C02); not a failing input of the
-            # property unless GrammarError yes/no or the table changes - that is decided by stage numbers 10/11
-            ctx.note('reads-cycle grammar differs from the specification closure at stages %s' % stages)
-            if stages is not None and not ({'10', '11'} & set(stages.strip('[]').replace(' ', '').split(';'))):
-                continue
-        if not m['viol']:
-            ctx.violation('correspondence:LR/Automaton vs lalr_analysis', dict(
-                no_longer_checks='model/implementation agreement (stages %s of AutomatonCheck.stages)' % stages,
-                grammar=m['grammar'], starts=m['starts'], kind='analysis'), False,
-                'model and LALR_Analyzer disagree at stages %s; the LR(1)-merge/membership oracles hold here' % stages)
+    # grammars without a reads-cycle: exact agreement with the specification-level model at every stage.
+    # Grammars with a reads-cycle (never LR(k)): lark's digraph() aliases the Read set object of the members of a
+    # reads-SCC, so its look-ahead sets can be larger than the least solution and, with priorities, a different rule can
+    # win a look-ahead.  No tolerance: for this class the look-aheads are computed in Coq by the AS-CODED digraph
+    # (LR/Digraph.v) run with lark's own node order and set iteration orders (exported above), and look-ahead sets,
+    # GrammarError yes/no and the table must agree EXACTLY with that (AutomatonCheck.coded_stages); states, NULLABLE and
+    # the four relations are compared with the model as always.
+    idx_exact = [i for i, m in enumerate(ameta) if not m['cyc']]
+    idx_tol = [i for i, m in enumerate(ameta) if m['cyc']]
+    for fn, diag_fn, idxs in (('check_acase', 'diag_acase', idx_exact), ('check_acase_coded', 'diag_acase_coded', idx_tol)):
+        sub = [acases[i] for i in idxs]
+        bad, errs = ctx.coq_bad_indices('c02a_' + fn[-3:], IMPORTS, fn, sub, chunk=max(8, len(sub) // 6 + 1))
+        for e in errs:
+            ctx.violation('correspondence:coq-eval', {'error': e[-600:], 'no_longer_checks': 'coq evaluation of analysis cases'},
+                          False, e[-300:])
+        for k_, bi in enumerate(bad):
+            i = idxs[bi]
+            m = ameta[i]
+            stages = None
+            if k_ < 3:        # one coqc per diagnosis: keep the number small
+                stages, _ = ctx.coq_eval('c02a_diag_%s_%d' % (fn[-3:], i), IMPORTS, '%s %s' % (diag_fn, acases[i]))
+            failing = set((stages or '').strip('[]').replace(' ', '').split(';')) - {''}
+            if not m['viol']:
+                ctx.violation('correspondence:LR/Automaton vs lalr_analysis', dict(
+                    no_longer_checks='model/implementation agreement (stages %s of AutomatonCheck.%s)' % (stages, 'coded_stages' if m['cyc'] else 'stages'),
+                    grammar=m['grammar'], starts=m['starts'], kind='analysis'), False,
+                    'model and LALR_Analyzer disagree at stages %s; the LR(1)-merge/membership oracles hold here' % stages)
+    if idx_tol:
+        ctx.note('%d grammar(s) with a reads-cycle compared exactly with the as-coded digraph model' % len(idx_tol))
 
     # --- Coq: the model's look-ahead sets vs the executable canonical-LR(1)-merge specification ---
     bad, errs = ctx.coq_bad_indices('c02l', IMPORTS, 'check_lr1', lcases, chunk=max(8, len(lcases) // 6 + 1))
@@ -1085,6 +1098,14 @@ def correspond(ctx):
 
 def count_nodes(t):
     return 0 if t[0] == 'L' else 1 + sum(count_nodes(c) for c in t[2])
+
+
+def c_acase_coded(d):
+    pos = {st[0]: i for i, st in enumerate(d['states'])}
+    nt = lambda x: '(%d,%d)' % (pos[x[0]], x[1])
+    return '(%s,%s,%s,%s)' % (c_acase(d), L([nt(x) for x in d['order_nts']]),
+                              L([L([nt(y) for y in ys]) for ys in d['order_reads']]),
+                              L([L([nt(y) for y in ys]) for ys in d['order_includes']]))
 
 
 def c_acase(d):
@@ -1193,6 +1214,24 @@ def digraph_coded_stream(ctx):
                 'the as-coded model of digraph()/traverse() and lark disagree')
 
 
+def spec_collision(d):
+    """reduce/reduce collision expected from the least-solution (DeRemer-Pennello) look-aheads of the dumped relations"""
+    nodes = d['nts']
+    Read = py_closure(nodes, {x: dict(d['reads']).get(x, []) for x in nodes}, {x: set(dict(d['dr']).get(x, [])) for x in nodes})
+    Follow = py_closure(nodes, {x: dict(d['includes']).get(x, []) for x in nodes}, Read)
+    la = {}
+    for nt, lbs in d['lookback']:
+        for (k, r) in lbs:
+            for t in Follow.get(nt, ()):
+                la.setdefault((k, t), set()).add(r)
+    for (k, t), rs in la.items():
+        if len(rs) > 1:
+            ps = sorted((d['prio'][r] for r in rs), reverse=True)
+            if not ps[0] > ps[1]:
+                return True
+    return False
+
+
 def py_closure(X, R, G):
     F = {x: set(G[x]) for x in X}
     ch = True
@@ -1237,6 +1276,8 @@ def replay(ctx, case):
         return False
     d = dump_analysis(o)
     tab = table_dump(o, d) if o.lark is not None else None
+    if kind == 'conflict-aliasing':
+        return spec_collision(d) != d['error']
     if kind in ('conflict', 'lookahead', 'table'):
         return any(k == kind for k, _ in grammar_oracles(o, d, tab))
     if kind == 'membership' and tab is not None:
